@@ -3,6 +3,8 @@
 impl -> spec: every base history of generated programs, with invalid calls injected; validated by
 TLC against InkHostAbs (rule Rejected: result err, no callbacks, observation incl. the save document
 unchanged; all later valid operations produce the base observations and callbacks)."""
+import json
+import os
 import random
 
 import common
@@ -140,4 +142,13 @@ def run(tier, seed):
     # the same property against the executable model of the host interface (absolute oracle, Tier-S programs)
     import hostmodel
     nviol += hostmodel.check("C09", "refuse", tier, seed)
+    # ... and EVERY sequence of 2 (quick) / 3 (thorough) calls over an alphabet of valid and invalid forms of every kind of
+    # call, on two programs (small-scope exhaustive conformance of the host model)
+    ev0 = json.load(open(os.path.join(lib.VERIF, "evidence", "C09.json")))["coverage"].get("host_model")
+    nviol += hostmodel.check("C09", "exhaustive", tier, seed)
+    evp = os.path.join(lib.VERIF, "evidence", "C09.json")
+    ev = json.load(open(evp))
+    ev["coverage"]["host_model_exhaustive"] = ev["coverage"]["host_model"]
+    ev["coverage"]["host_model"] = ev0
+    json.dump(ev, open(evp, "w"), indent=1, sort_keys=True)
     return nviol
